@@ -10,6 +10,14 @@
 (*   kind: "ok" | "e1" | "e2" (returns that error) | "panic"                *)
 (*       | "wait_ok" | "wait_e3" (first waits for cancellation)             *)
 (* plus the body's own result and whether the caller cancels from outside.  *)
+(* outer = TRUE stands for EVERY way the caller's context can end while the *)
+(* scope runs (ctx/mod.rs:196-260): its own deadline passes (under a        *)
+(* deadline-less parent, or a tighter deadline under a parent with a later  *)
+(* one), an ancestor's deadline passes, an enclosing scope terminates. A    *)
+(* waiting task waits on the scope's context or on ANY descendant of it (a  *)
+(* child / grandchild with later deadlines, the context of a nested scope): *)
+(* cancellation reaches every descendant, so `cancelled` is one flag. The   *)
+(* harness rotates through these shapes for every program.                  *)
 (* The model explores every schedule; TLC prints every reachable outcome of *)
 (* every program, which is the set of outcomes the real scope may produce.  *)
 (***************************************************************************)
